@@ -64,6 +64,59 @@ fn lift<E: Express<'static, Term>>(r: Result<ExResult<(E, Term)>, String>) -> (O
     }
 }
 
+fn opaque(r: Result<ExResult<()>, String>) -> Obs {
+    let mut extra = Map::new();
+    extra.insert("opaque".into(), json!(true));
+    let (outcome, msg) = match r {
+        Err(p) => ("panic", p),
+        Ok(Err(e)) => ("err", e.msg().to_string()),
+        Ok(Ok(())) => ("ok", String::new()),
+    };
+    Obs { outcome, msg, vars: vec![], den: None, extra }
+}
+
+/// everything the property lists as follow-up on an accepted text: evaluate with a correct-length
+/// slice, convert, unparse, list operators, differentiate
+fn follow_up_f64(e: FlatEx<f64>) -> ExResult<()> {
+    let n = e.var_names().len();
+    let vals = vec![0.5f64; n];
+    e.eval(&vals)?;
+    e.eval_relaxed(&vals)?;
+    e.eval_vec(vals.clone())?;
+    e.eval_iter(vals.iter().copied())?;
+    let _ = (e.unparse().len(), e.operator_reprs(), e.binary_reprs(), e.unary_reprs(), e.var_indices_ordered());
+    let d = e.clone().to_deepex()?;
+    d.eval(&vals)?;
+    let _ = (d.unparse().len(), d.operator_reprs());
+    let back = FlatEx::<f64>::from_deepex(d)?;
+    back.eval(&vals)?;
+    if n > 0 {
+        // a missing derivative rule is an error value, not a crash
+        let _ = e.clone().partial(0).map(|p| p.eval(&vals));
+        let _ = e.partial_relaxed(n - 1, exmex::MissingOpMode::PerOperand).map(|p| p.eval(&vals));
+    }
+    Ok(())
+}
+
+fn follow_up_val(e: exmex::FlatExVal<i32, f64>) -> ExResult<()> {
+    use exmex::Val;
+    let n = e.var_names().len();
+    for v in [Val::Int(1), Val::Float(0.5), Val::Bool(true), Val::None] {
+        let vals = vec![v; n];
+        e.eval(&vals)?;
+        e.eval_vec(vals.clone())?;
+    }
+    let _ = (e.unparse().len(), e.operator_reprs());
+    let d = e.clone().to_deepex()?;
+    let vals = vec![Val::Float(0.5); n];
+    d.eval(&vals)?;
+    let _ = d.unparse().len();
+    if n > 0 {
+        let _ = e.partial(0).map(|p| p.eval(&vals));
+    }
+    Ok(())
+}
+
 fn eval_of<'a, E: Express<'a, Term>>(e: &E) -> ExResult<Term> {
     e.eval(&var_terms(e.var_names()))
 }
@@ -135,6 +188,22 @@ pub fn run_entry(entry: &str, text: &'static str) -> Obs {
             Ok((e, d))
         }))
         .0,
+        "eval_str_f64" => opaque(guarded(|| exmex::eval_str::<f64>(text).map(|_| ()))),
+        "eval_str_f32" => opaque(guarded(|| exmex::eval_str::<f32>(text).map(|_| ()))),
+        "parse_f64" => opaque(guarded(|| follow_up_f64(exmex::parse::<f64>(text)?))),
+        "parse_wo_f64" => opaque(guarded(|| follow_up_f64(FlatEx::<f64>::parse_wo_compile(text)?))),
+        "deep_f64" => opaque(guarded(|| {
+            let d = DeepEx::<f64>::parse(text)?;
+            let vals = vec![0.5f64; d.var_names().len()];
+            d.eval(&vals)?;
+            let _ = (d.unparse().len(), d.operator_reprs(), d.binary_reprs(), d.unary_reprs());
+            follow_up_f64(FlatEx::<f64>::from_deepex(d)?)
+        })),
+        "parse_val" => opaque(guarded(|| follow_up_val(exmex::parse_val::<i32, f64>(text)?))),
+        "stmt" => opaque(guarded(|| {
+            exmex::statements::line_2_statement::<f64, exmex::FloatOpsFactory<f64>, exmex::NumberMatcher>(text).map(|_| ())
+        })),
+        "stmt_val" => opaque(guarded(|| exmex::line_2_statement_val::<i32, f64>(text).map(|_| ()))),
         _ => Obs { outcome: "err", msg: format!("unknown entry {entry}"), vars: vec![], den: None, extra: Map::new() },
     }
 }
